@@ -195,6 +195,8 @@ def pf_mode(tr, k):
 def oracle_c14(tr: Trace):
     table = tr.cfg["faults"]
     for k, st in enumerate(tr.steps):
+        if (st.tag == 7 and st.op[1] == 2) or (st.tag == 3 and st.ob["exc"] >= 200):
+            return      # the environment removed a file mid-transfer: outside the property's histories from here on
         evs = st.ob["events"]
         fe = [e for e in evs if 11 <= e[0] <= 14]
         if not fe:
@@ -207,7 +209,7 @@ def oracle_c14(tr: Trace):
                 raise Failure(f"C14 fault callback without a transaction id (op {st.i})")
             code = table.get(cond)
             in_cancel_exchange = pf is not None and (
-                (tr.kind == "source" and pf["cond_code_eof"] not in (-1, 0)) or
+                (tr.kind == "source" and _cancel_eof_emitted_since_put(tr, k)) or
                 (tr.kind == "dest" and pf["disposition"] == 1 and pf["step"] == 9))
             if kind == 14 and in_cancel_exchange:
                 continue                # abandonment of a cancellation exchange (CFDP 4.11.2.2.3 / 4.11.2.3.3)
@@ -238,6 +240,19 @@ def oracle_c14(tr: Trace):
             if kind == 11 and cond in (1, 7, 10, 6, 4) and tr.kind == "dest" and f["state"] == 1:
                 if f["fin_cond"] != cond and f["disposition"] == 1 and not any(x[0] == 11 and x[3] != cond for x in fe):
                     raise Failure(f"C14 notice of cancellation for condition {cond}: Finished parameters carry {f['fin_cond']} (op {st.i})")
+
+
+def _cancel_eof_emitted_since_put(tr, k):
+    """Was an EOF (cancel) PDU emitted by this transaction before step index k?  (Judged from the PDUs, not from the
+    handler's own bookkeeping.)"""
+    for s in reversed(tr.steps[:k]):
+        if s.tag == 8 and s.ob["ret"] == 1:
+            return False
+        if s.tag == 2 and s.ob["ret"] == 1:
+            g = codec.dec_got(s.ob["extra"])[0]
+            if g["kind"] == codec.K_EOF and g["cond"] != 0:
+                return True
+    return False
 
 
 def set_handler_refuses():
@@ -278,6 +293,7 @@ def _c15_source(tr, gate):
     started = False
     cur_tid = None
     put = None
+    received_fin = None
     for k, st in enumerate(tr.steps):
         evs = st.ob["events"]
         for e in evs:
@@ -286,6 +302,17 @@ def _c15_source(tr, gate):
         if st.tag == 8 and st.ob["ret"] == 1:
             put = srcprops.dec_put(st.op[1:])
             started = False
+            received_fin = None
+        if st.tag == 0 and st.pdu["kind"] == codec.K_FIN and st.ob["exc"] == 0 and st.prev is not None and \
+                st.prev["fields"]["state"] == 1 and \
+                (st.ob["fields"]["step"] in (9, 10) or (st.ob["fields"]["state"] == 0 and any(e[0] == 3 for e in evs))):
+            received_fin = (st.pdu["cond"], st.pdu["deliv"], st.pdu["fstatus"])
+        for e in evs:
+            if e[0] == 3:
+                want = received_fin if received_fin is not None else (0, 0, 3)
+                if tuple(e[3:6]) != want:
+                    raise Failure(f"C15 sender's Transaction-Finished reports {tuple(e[3:6])}; the Finished PDU received for this "
+                                  f"transaction carried {received_fin} (none received: own success notice (0, 0, 3)) (op {st.i})")
         got = _drained_after(tr, k) if st.tag in (0, 1, 3) and (st.prev is None or st.prev["fields"]["qlen"] == 0) else []
         for e in evs:
             if e[0] == 1:
